@@ -325,6 +325,88 @@ func main() {
 			}
 		}
 	}
+	// ---- 1b. Clear in every fill state, then reuse: for the rings every capacity x {empty, each partial fill, exactly
+	//          full, full after k evictions, full with start moved by dequeue/enqueue}; for the others several sizes.
+	//          The suffix enqueues more than two capacities, dequeues in between, clears once more and drains. ----
+	for _, k := range kinds {
+		var prefixes [][]op
+		enq := func(n int, base int) []op {
+			var r []op
+			for i := 0; i < n; i++ {
+				r = append(r, op{K: "Enq", V: (base + i) % 3})
+			}
+			return r
+		}
+		deq := func(n int) []op {
+			var r []op
+			for i := 0; i < n; i++ {
+				r = append(r, op{K: "Deq"})
+			}
+			return r
+		}
+		if k.cap > 0 {
+			c := k.cap
+			for n := 0; n <= c; n++ { // empty, partial, exactly full
+				prefixes = append(prefixes, enq(n, 1))
+			}
+			for j := 1; j <= c+1; j++ { // full after j evictions (wrap-around of end and start)
+				prefixes = append(prefixes, enq(c+j, 0))
+			}
+			for d := 1; d <= c; d++ { // full again after d dequeues and d enqueues: start = d mod c
+				prefixes = append(prefixes, append(append(enq(c, 2), deq(d)...), enq(d, 0)...))
+			}
+			for d := 1; d < c; d++ { // partial with start moved
+				prefixes = append(prefixes, append(enq(c, 1), deq(d)...))
+			}
+		} else {
+			for _, n := range []int{0, 1, 2, 3, 6, 9} {
+				prefixes = append(prefixes, enq(n, 1))
+			}
+			prefixes = append(prefixes, append(enq(7, 0), deq(3)...), append(enq(4, 2), deq(4)...), append(enq(2, 0), deq(3)...))
+			if k.heap {
+				prefixes = append(prefixes, []op{{K: "Push", Vs: []int{2, 0, 1, 0, 2}}}, []op{{K: "Push", Vs: []int{}}})
+			}
+		}
+		m := k.cap
+		if m == 0 {
+			m = 3
+		}
+		for pi, pre := range prefixes {
+			if k.safe && !thorough && pi%2 == 1 {
+				continue
+			}
+			for variant := 0; variant < 2; variant++ {
+				c := newCase(k)
+				c.observe("New")
+				for _, p := range pre {
+					c.do(p)
+				}
+				c.do(op{K: "Clear"})
+				if variant == 1 {
+					c.do(op{K: "Clear"}) // Clear of a just-cleared container
+					c.do(op{K: "Deq"})   // removal from the cleared container
+				}
+				// reuse: more than two capacities, a dequeue after every third enqueue
+				for i := 0; i < 2*m+3; i++ {
+					c.do(op{K: "Enq", V: (i + variant) % 3})
+					if i%3 == 2 {
+						c.do(op{K: "Deq"})
+					}
+				}
+				if k.heap {
+					c.do(op{K: "Push", Vs: []int{1, 0, 2, 0}})
+				}
+				c.do(op{K: "Clear"})
+				for _, p := range enq(m+1, variant) {
+					c.do(p)
+				}
+				for _, p := range deq(m + 2) { // drain, one removal past empty
+					c.do(p)
+				}
+				c.emit(w, "clear-reuse")
+			}
+		}
+	}
 	// ---- 2. random long words in profiles ----
 	walks := 12
 	if thorough {
@@ -347,7 +429,7 @@ func main() {
 			}
 		}
 	}
-	w.Close(o, "one case = one container (array/linked queue, circular buffer of capacity 1..5, priority queue, binary heap with the int comparator or its reverse, array/linked stack; plain or Safe wrapper) driven through a word of Enqueue/Push, Dequeue/Pop, Clear, bulk Push; after every mutator Peek, Values, Size, Empty (Full) and the ring cursors / heap array are recorded; distinct = distinct case terms; non-trivial = at least two mutators and a non-empty container reached")
+	w.Close(o, "one case = one container (array/linked queue, circular buffer of capacity 1..5, priority queue, binary heap with the int comparator or its reverse, array/linked stack; plain or Safe wrapper) driven through a word of Enqueue/Push, Dequeue/Pop, Clear, bulk Push (exhaustive short words, Clear in every fill state followed by reuse, profiled random long words); after every mutator Peek, Values, Size, Empty (Full) and the ring cursors / heap array are recorded; distinct = distinct case terms; non-trivial = at least two mutators and a non-empty container reached")
 }
 
 func walk(c *caseBuilder, r *vhlib.Rng, prof string) {
